@@ -301,12 +301,19 @@ def gen_table(rnd, nrows=None, ncols=None, pool=None, ragged=0.15, none_p=0.1, f
     return t
 
 
+SAFE = [False]   # when set, field references stay inside the table width (expressions that mean the same in Python and JS)
+
+
+def _w(n):
+    return n if SAFE[0] else n + 1
+
+
 def gen_str_expr(rnd, ncols, depth=2, allow_b=False, bcols=2):
     r = rnd.random()
     if depth <= 0 or r < 0.45:
         if allow_b and rnd.random() < 0.35:
-            return ['b', rnd.randrange(bcols + 1)]
-        return ['a', rnd.randrange(ncols + 1)]
+            return ['b', rnd.randrange(_w(bcols))]
+        return ['a', rnd.randrange(_w(ncols))]
     if r < 0.6:
         return ['lit', rnd.choice(STR_POOL + ['select', 'where x', '* ,', "it's", 'say "hi"', 'a1', '#c'])]
     return ['concat', gen_str_expr(rnd, ncols, depth - 1, allow_b, bcols), gen_str_expr(rnd, ncols, depth - 1, allow_b, bcols)]
@@ -315,7 +322,7 @@ def gen_str_expr(rnd, ncols, depth=2, allow_b=False, bcols=2):
 def gen_num_expr(rnd, ncols, depth=2):
     r = rnd.random()
     if depth <= 0 or r < 0.5:
-        return rnd.choice([['nr'], ['nf'], ['lit', num(rnd.randint(1, 5))], ['len', ['a', rnd.randrange(ncols + 1)]]])
+        return rnd.choice([['nr'], ['nf'], ['lit', num(rnd.randint(1, 5))], ['len', ['a', rnd.randrange(_w(ncols))]]])
     op = rnd.choice(['add', 'mul', 'mod'])
     y = gen_num_expr(rnd, ncols, depth - 1)
     if op == 'mod':
